@@ -79,6 +79,13 @@ KNOWN = {
     # before it is reset, the transient value fails the bounds check of the
     # setter -> ValueError although all optimiser iterates are inside.
     "tpl_var_bounds_transient": True,
+    # curve_fit is called with scipy's absolute default tolerances on an
+    # unscaled problem: gtol=1e-8 applies to J^T r / sigma^2, so the attainable
+    # relative accuracy of the curve is ~ 1e-8 * sigma^2 * max(1, len_scale) /
+    # (sill^2 * smin): small variograms (var <~ 1e-2) or weights="inv" with lags
+    # in large units (sigma = 1 + x, km/m) stop early or do not move at all.
+    # Region skipped for the recovery assertions: EPS_G > CURVE_TOL.
+    "scipy_abs_tolerance": True,
     # weights given as a plain list (documented: "list: weights given per bin")
     # together with directional data raises AttributeError ('list'.size).
     "weights_list_directional": True,
@@ -116,15 +123,24 @@ PARAM_TOL = 1e-3  # relative to the parameter's natural scale
 # Recovery of the curve is only demanded in the identifiable configuration:
 # SMIN bounds the smallest singular value of the relative Jacobian of the
 # oracle curve at the truth (curve change / sill per unit relative parameter
-# change in the least sensitive direction): below 0.05 a 30 % move along that
-# direction changes the curve by < 1.5 % of the sill, the flat curved valleys
+# change in the least sensitive direction): below 0.1 a 30 % move along that
+# direction changes the curve by < 3 % of the sill, the flat curved valleys
 # where trust-region solvers legitimately stop on xtol/ftol or run out of
 # evaluations; with >= 2 free shape parameters (TPL: hurst, alpha, len_low) the
 # cost has secondary optima inside the +-30 % box (observed: 'trf' ends with
 # gtol satisfied at hurst -> 1).  Outside this configuration only the
 # monotone-cost assertion and all state assertions apply.
-SMIN = 0.05
+SMIN = 0.1
 MAX_SHAPE = 1
+GTOL = 1e-8  # scipy default handed through by fit_variogram
+
+
+def _kinked(truth):
+    """Model whose variogram has a kink / cusp at its range: (1 - r/l)^nu with nu <= 1."""
+    cls, dim, opt = truth["cls"], truth["dim"], truth["opt"]
+    if cls == "Linear" or (cls == "HyperSpherical" and dim == 1):
+        return True
+    return cls in ("SuperSpherical", "TPLSimple") and opt.get("nu", 2.0) <= 1.0
 NEAR = 0.3
 
 GEO_SCALES = [1.0, 57.29577951308232, 6371.0]
@@ -928,7 +944,16 @@ def check_fit(case, rec):
     n_shape = sum(1 for nm in free if nm not in ("var", "len_scale", "nugget"))
     # "identifiable configuration" (DESIGN C10 (ii)): see SMIN / MAX_SHAPE
     identifiable = sens is not None and sens[1] >= SMIN and n_shape <= MAX_SHAPE
-    expect_recovery = reachable and identifiable
+    # 'dogbox' ("not recommended for problems with rank-deficient Jacobian") on a
+    # model with a kink at its range: bins beyond the range have a zero
+    # Jacobian, the Gauss-Newton model fails across the kink -> xtol stop
+    smooth_enough = not (case["method"] == "dogbox" and _kinked(truth))
+    eps_g = None
+    if reachable and identifiable:
+        sc_max = max([1.0] + [_scale(nm, tv) for nm in free if nm not in ("var", "nugget")])
+        eps_g = GTOL * _sigma_eff(case, x, dim) ** 2 * sc_max * math.sqrt(max(k_free, 1)) / (sill_t**2 * sens[1])
+    scale_ok = eps_g is not None and eps_g <= CURVE_TOL
+    expect_recovery = reachable and identifiable and smooth_enough and (scale_ok or not KNOWN["scipy_abs_tolerance"])
     rec.note("smin", None if sens is None else sens[1])
     constraint_active = (
         any(stat[nm] != "fit" for nm in names) or plan["sill"] is not None or bool(case["bounds"]) or mode != "iso" or not isinstance(anis_arg, bool)
@@ -936,8 +961,11 @@ def check_fit(case, rec):
     rec.nontrivial(bool(constraint_active and far10))
     if expect_recovery:
         rec.label("recovery_expected")
+    elif reachable and identifiable and smooth_enough:
+        rec.label("reachable_but_abs_tolerance_region")
+        rec.exclude("scipy_abs_tolerance")
     elif reachable:
-        rec.label("reachable_but_" + ("multi_shape" if n_shape > MAX_SHAPE else "ill_conditioned"))
+        rec.label("reachable_but_" + ("multi_shape" if n_shape > MAX_SHAPE else "ill_conditioned" if not identifiable else "kinked_dogbox"))
     else:
         rec.label("underdetermined" if consistent and near else "consistent_far_start" if consistent else "truth_unreachable")
 
@@ -1125,7 +1153,7 @@ def check_fit(case, rec):
         if np.isfinite(c0):
             rec.discrepancy("cost_increase", max(c1 - c0, 0.0), 1e-9 * c0 + 1e-300)
             require(
-                c1 <= c0 * (1 + 1e-9),
+                c1 <= c0 * (1 + 1e-9) + 1e-20 * _cost("linear", y / sig),
                 f"fit result is worse than its documented start: cost {c1:.6g} > {c0:.6g} ({case['loss']} loss, weighted)",
                 dict(tags, kind="cost_increase"),
             )
